@@ -19,9 +19,9 @@ package analysis
 //@ spec resOk(res) = res != nil && res.emptiedAccount != nil && res.declaredVars != nil && res.unusedVars != nil && res.varResolution != nil && res.fnCallResolution != nil && forallstr(k, has(res.declaredVars, k) ==> declOk(res.declaredVars[k])) && forallref(f, has(res.fnCallResolution, f) ==> typeis(res.fnCallResolution[f], StatementFnCallResolution) || typeis(res.fnCallResolution[f], VarOriginFnCallResolution)) && forallref(v, has(res.varResolution, v) ==> declOk(res.varResolution[v]))
 // the same for a check result held by value (as the language server stores it)
 //@ spec crOk(cr) = cr.emptiedAccount != nil && cr.declaredVars != nil && cr.unusedVars != nil && cr.varResolution != nil && cr.fnCallResolution != nil && forallstr(k, has(cr.declaredVars, k) ==> declOk(cr.declaredVars[k])) && forallref(f, has(cr.fnCallResolution, f) ==> typeis(cr.fnCallResolution[f], StatementFnCallResolution) || typeis(cr.fnCallResolution[f], VarOriginFnCallResolution)) && forallref(v, has(cr.varResolution, v) ==> declOk(cr.varResolution[v]))
-// knownType(name): name is one of the six type names - a name for what isTypeAllowed computes over the package variable
-// AllowedTypes (whose content the verifier does not see)
-//@ relation knownType
+// knownType(name): name is one of the six type names - what isTypeAllowed computes over the package variable AllowedTypes
+// (whose content is read from the package initialiser: a literal of constants, assigned nowhere else)
+//@ spec knownType(name) = name == "monetary" || name == "account" || name == "portion" || name == "asset" || name == "number" || name == "string"
 //@ spec exprOk(e) = e == nil || ewf(e)
 // position lies in the closed range (what Range.Contains computes)
 //@ spec rangeHas(r, p) = (p.Line > r.Start.Line || (p.Line == r.Start.Line && p.Character >= r.Start.Character)) && (r.End.Line > p.Line || (r.End.Line == p.Line && r.End.Character >= p.Character))
@@ -78,13 +78,17 @@ package analysis
 //@   let av = as(as(source, *parser.SourceAccount).ValueExpr, *parser.Variable)
 //@   ensures [undeclared-account-variable-reported] {C16,C17} typeis(source, *parser.SourceAccount) && typeis(as(source, *parser.SourceAccount).ValueExpr, *parser.Variable) && !old(has(res.declaredVars, av.Name)) ==> len(res.Diagnostics) >= old(len(res.Diagnostics)) + ite(old(res.unboundedAccountInSend) != nil, 2, 1) && typeis(res.Diagnostics[old(len(res.Diagnostics)) + ite(old(res.unboundedAccountInSend) != nil, 1, 0)].Kind, *UnboundVariable) && as(res.Diagnostics[old(len(res.Diagnostics)) + ite(old(res.unboundedAccountInSend) != nil, 1, 0)].Kind, *UnboundVariable).Name == av.Name
 //@   ensures [scope-restored] res.emptiedAccount == old(res.emptiedAccount) && res.unboundedSend == old(res.unboundedSend)
+//@   ensures [resolutions-kept] {C19} resolutionsKept(res) && declaredNamesKept(res)
 //@   modifies res.Diagnostics, entries(res.varResolution), entries(res.unusedVars), res.emptiedAccount, res.unboundedAccountInSend, res.unboundedSend, entries(res.emptiedAccount)
 //@   loop 1
 //@     invariant [state] resOk(res)
 //@     invariant [scope] res.emptiedAccount == old(res.emptiedAccount) && res.unboundedSend == old(res.unboundedSend)
+//@     invariant [kept] resolutionsKept(res) && declaredNamesKept(res)
 //@   loop 2
 //@     invariant [state] resOk(res)
 //@     invariant [scope] res.emptiedAccount == old(res.emptiedAccount) && res.unboundedSend == old(res.unboundedSend)
+//@     invariant [kept] resolutionsKept(res) && declaredNamesKept(res)
+//@     assert [portion-variable-resolved] {C16,C19} typeis(allottedItem.Allotment, *parser.Variable) && has(res.declaredVars, as(allottedItem.Allotment, *parser.Variable).Name) ==> has(res.varResolution, as(allottedItem.Allotment, *parser.Variable))
 //@     invariant [sum] sum != nil
 
 //@ func (*CheckResult).checkDestination
@@ -378,5 +382,5 @@ package analysis
 //@   modifies nothing
 
 //@ func isTypeAllowed
-//@   assumes [is-known-type] result == knownType(typeName)
+//@   ensures [six-type-names] {C16,C17} result == knownType(typeName)
 //@   modifies nothing
